@@ -184,3 +184,7 @@ def run(ctx):
 # sensitivity pack (thorough tier): each seeded edit must be reported by the named rule instance
 MUTANTS = [{'name': 'height-tags-swapped', 'file': 'crates/ordinals/src/runestone.rs', 'old': 'Tag::HeightStart.encode_option(terms.height.0, &mut payload);\n        Tag::HeightEnd.encode_option(terms.height.1, &mut payload);', 'new': 'Tag::HeightStart.encode_option(terms.height.1, &mut payload);\n        Tag::HeightEnd.encode_option(terms.height.0, &mut payload);', 'expect': ('R25.1', 'encipher', 'Tag::HeightEnd')},
            {'name': 'flaw-does-not-stop-parsing', 'file': 'crates/ordinals/src/runestone/message.rs', 'old': '            flaw.get_or_insert(Flaw::EdictRuneId);\n            break;', 'new': '            flaw.get_or_insert(Flaw::EdictRuneId);\n            continue;', 'expect': ('R25.2', 'from_integers', 'EdictRuneId')}]
+
+
+# behaviour-preserving edits (thorough tier): the rules must stay silent on every one of them
+NEUTRAL = [{'name': 'encipher: two independent tags written in another order', 'file': 'crates/ordinals/src/runestone.rs', 'old': '      Tag::Divisibility.encode_option(etching.divisibility, &mut payload);\n      Tag::Spacers.encode_option(etching.spacers, &mut payload);', 'new': '      Tag::Spacers.encode_option(etching.spacers, &mut payload);\n      Tag::Divisibility.encode_option(etching.divisibility, &mut payload);'}]
